@@ -1041,3 +1041,20 @@ package geom
 //@   ensures [polygon] t != nil && result1 == nil ==> typeof(result0) == Polygon && len(result0.(Polygon)) == 1 && len(result0.(Polygon)[0]) == 4 && biteq(result0.(Polygon)[0][0], txPt(t, b.Min)) && biteq(result0.(Polygon)[0][1], txPt(t, Point(b.Max.X, b.Min.Y))) && biteq(result0.(Polygon)[0][2], txPt(t, b.Max)) && biteq(result0.(Polygon)[0][3], txPt(t, Point(b.Min.X, b.Max.Y)))
 //@   ensures [error_nil_result] result1 != nil ==> result0 == nil
 //@   modifies nothing
+
+//@ interface Geom.Transform
+//@   prop C10
+//@   requires [recv] nonNilBounds(self)
+//@   ensures [nil_identity] t == nil ==> result1 == nil && result0 == self
+//@   modifies nothing
+
+//@ func (gc GeometryCollection) Transform
+//@   prop C10
+//@   mode ufloat
+//@   requires [members] forall k int :: 0 <= k && k < len(gc) ==> typeof(gc[k]) != nil && nonNilBounds(gc[k])
+//@   ensures [nil_identity] t == nil ==> result1 == nil && typeof(result0) == GeometryCollection && result0.(GeometryCollection) == gc
+//@   ensures [shape] t != nil && result1 == nil ==> typeof(result0) == GeometryCollection && fresh(result0.(GeometryCollection)) && len(result0.(GeometryCollection)) == len(gc)
+//@   ensures [error_nil_result] result1 != nil ==> result0 == nil
+//@   modifies nothing
+//@   loop 1 `for i, g := range gc`
+//@     invariant [members] t != nil && 0 <= #1 && #1 <= len(gc) && fresh(gc2) && len(gc2) == len(gc)
